@@ -150,7 +150,9 @@ func RunConnect(o RunOpts, run *ConnectRun) (*Result, error) {
 		id := e.Req.ID
 		rec.Emit("csend", "i", id, "close", e.Req.Close, "connect", false)
 		if _, err := rw.Write(e.Req.Bytes()); err != nil {
-			return finish(fmt.Sprintf("writing inner request %d: %v", id, err))
+			// the proxy may answer and close before it has read the whole request (for example a
+			// skipped round trip with a large body): the answer is still there to be read
+			r.Notes = append(r.Notes, fmt.Sprintf("writing inner request %d: %v", id, err))
 		}
 		method := e.Req.Method
 		m, perr, eof := ep.ReadResponse(tbr, func() string { return method })
@@ -241,7 +243,7 @@ func RunTransparent(o RunOpts, ex []*ep.Exchange, serverName string, roots *x509
 	for i, e := range ex {
 		rec.Emit("csend", "i", e.Req.ID, "close", e.Req.Close, "connect", false)
 		if _, err := tc.Write(e.Req.Bytes()); err != nil {
-			return finish(fmt.Sprintf("writing request %d: %v", e.Req.ID, err))
+			r.Notes = append(r.Notes, fmt.Sprintf("writing request %d: %v", e.Req.ID, err))
 		}
 		method := e.Req.Method
 		m, perr, eof := ep.ReadResponse(br, func() string { return method })
